@@ -6,7 +6,7 @@
    space) are exactly two of the recorded round-trip findings. *)
 From Coq Require Import ZArith List Bool Lia.
 From Mistletoe Require Import Base.Sx Base.PyStr Base.PyText Gen.GenTables Gen.GenConfig Model.Tree Model.CoreTokens Model.Block Model.Build
-     Model.MarkdownRenderer Model.Parser Proofs.PlainProse Proofs.Prose Proofs.ListLaw Proofs.FenceLaw Spec.Fragment Proofs.FragmentP Proofs.FragmentDoc Proofs.FragmentHtml.
+     Model.MarkdownRenderer Model.Parser Proofs.PlainProse Proofs.Prose Proofs.ProseLines Proofs.ListLaw Proofs.FenceLaw Spec.Fragment Proofs.FragmentP Proofs.FragmentDoc Proofs.FragmentHtml.
 Import ListNotations.
 Local Open Scope Z_scope.
 
@@ -102,7 +102,7 @@ Qed.
 (* ---- what is required beyond wf_b for the round trip to be the identity ---- *)
 Fixpoint rt_ok (t : ftree) : bool :=
   match t with
-  | FPara _ _ => true
+  | FPara _ _ _ | FHead _ _ _ => true
   | FFence _ _ content =>
     (match content with [] => false | _ => true end) &&
     forallb (fun l => match l with SBlank => true | SLine _ c _ => negb (is_space_c c) end) content
@@ -161,14 +161,43 @@ Section RT.
       rewrite Forall_forall in H. apply (H t Ht).
   Qed.
 
-  Lemma rt_para c body : wf_b (FPara c body) = true -> RT (FPara c body).
+  Lemma plain_from_prose : forall ls cur, Forall (fun l => mem 10 l = false /\ l <> []) ls -> ls <> [] ->
+    plain_from cur (flat_map frags (prose_toks ls)) = (cur ++ hd [] ls) :: tl ls.
   Proof.
-    intros Hw.
-    cbn [wf_b] in Hw. apply andb_true_iff in Hw as [Hw _]. apply andb_true_iff in Hw as [Hw _]. apply plain_line_reflect in Hw.
-    destruct Hw as (Hp & Hf1 & _ & _). cbn [hd] in Hf1. split.
+    induction ls as [|l r IH]; intros cur H Hne; [contradiction|]. inversion H as [|? ? [H10 Hl] Hr]; subst.
+    destruct r as [|l2 r'].
+    - cbn [prose_toks flat_map frags app plain_from ftext Fw hd tl]. rewrite H10. cbn [plain_from].
+      destruct (cur ++ l) eqn:E; [destruct cur; [destruct l; [contradiction|discriminate]|discriminate]|reflexivity].
+    - change (prose_toks (l :: l2 :: r')) with (RawText l :: LineBreak [] true :: prose_toks (l2 :: r')).
+      cbn [flat_map frags app plain_from ftext Fw hd tl]. rewrite H10. cbn [plain_from ftext mem existsb app Z.eqb Pos.eqb orb].
+      change (mem 10 ([] ++ NL)) with true. cbv iota. cbn [split_nl split_nl_aux app NL Z.eqb Pos.eqb rev removelast last]. rewrite app_nil_r.
+      rewrite (IH [] Hr ltac:(discriminate)). reflexivity.
+  Qed.
+
+  Lemma rt_para c body more : wf_b (FPara c body more) = true -> RT (FPara c body more).
+  Proof.
+    intros Hw. destruct (wf_para c body more Hw) as (PL & _ & Hc).
+    assert (Hall : Forall plain_line ((c :: body) :: more)) by (constructor; [exact PL|apply Forall_forall; intros x Hx; rewrite Forall_forall in Hc; apply (Hc x Hx)]).
+    assert (Eb : map bare (spell (FPara c body more)) = (c :: body) :: more).
+    { cbn [spell map bare repeat app]. f_equal. rewrite map_map. rewrite <- (map_id more) at 2. apply map_ext_in. intros l Hl.
+      rewrite Forall_forall in Hc. destruct (Hc l Hl) as [(_ & _ & Hne & _) _]. destruct l; [contradiction|reflexivity]. }
+    split.
+    * unfold md_lines. rewrite Eb. cbn [tok_of block_lines]. unfold span_to_lines. cbn [fragments_to_lines].
+      rewrite plain_from_prose; [reflexivity| |discriminate].
+      apply Forall_forall. intros l Hl. rewrite Forall_forall in Hall. destruct (Hall l Hl) as (Hp & _ & Hne & _). split; [apply plain_no; [reflexivity|exact Hp]|exact Hne].
+    * cbn [spell]. constructor.
+      + cbn [solid]. destruct PL as (_ & Hf1 & _ & _). apply plain_first_not_space. exact Hf1.
+      + apply Forall_forall. intros x Hx. apply in_map_iff in Hx as (l & <- & Hl). cbn [solid]. rewrite Forall_forall in Hc.
+        destruct (Hc l Hl) as [(_ & Hf & _ & _) _]. apply plain_first_not_space. exact Hf.
+  Qed.
+
+  Lemma rt_head lv c body : wf_b (FHead lv c body) = true -> RT (FHead lv c body).
+  Proof.
+    intros Hw. destruct (head_wf lv c body Hw) as [((H1 & _) & H10 & _) Hp]. split.
     * unfold md_lines. cbn [tok_of block_lines spell map bare repeat app]. unfold span_to_lines. cbn [flat_map frags app fragments_to_lines plain_from ftext Fw].
-      rewrite (plain_no 10 (c :: body) eq_refl Hp). reflexivity.
-    * repeat constructor. cbn [solid]. apply plain_first_not_space. exact Hf1.
+      rewrite H10. cbn [plain_from app nonempty first_or_empty]. rewrite Nat2Z.id. destruct lv as [|k]; [lia|]. cbn [repeat app nonempty]. replace (S k - 1)%nat with k by lia.
+      rewrite app_nil_r. reflexivity.
+    * repeat constructor.
   Qed.
 
   Lemma rt_fence ch n content : wf_b (FFence ch n content) = true -> rt_ok (FFence ch n content) = true -> RT (FFence ch n content).
@@ -193,8 +222,8 @@ Section RT.
   Lemma rt_all : forall f t, (depth t <= f)%nat -> wf_b t = true -> rt_ok t = true -> RT t.
   Proof.
     induction f as [|f IH]; intros t Hd Hw Hr.
-    - destruct t as [c body|ch n content|ts|mk pad ts]; [apply rt_para; exact Hw|apply rt_fence; assumption|cbn [depth] in Hd; lia|cbn [depth] in Hd; lia].
-    - destruct t as [c body|ch n content|ts|mk pad ts]; [apply rt_para; exact Hw|apply rt_fence; assumption| |].
+    - destruct t as [c body more|ch n content|ts|mk pad ts|lv hc hb]; [apply rt_para; exact Hw|apply rt_fence; assumption|cbn [depth] in Hd; lia|cbn [depth] in Hd; lia|apply rt_head; exact Hw].
+    - destruct t as [c body more|ch n content|ts|mk pad ts|lv hc hb]; [apply rt_para; exact Hw|apply rt_fence; assumption| | |apply rt_head; exact Hw].
       + (* quote *)
         cbn [wf_b] in Hw. repeat rewrite andb_true_iff in Hw. destruct Hw as [[Hs Hall] Hg]. cbn [rt_ok] in Hr.
         assert (Hch : Forall RT ts).
@@ -263,8 +292,8 @@ Proof. intros Hw Hr H1. unfold parse_document. rewrite (doc_lines_spelled t H1).
 (* non-vacuity, and the two side conditions are needed: without them the statement is false *)
 Example round_trip_instance :
   let fence := FFence 96 3 [SLine 2 120 $" = 1"; SBlank; SLine 0 35 $" not a heading"] in
-  let t1 := FItem (MBullet 45) 2 [FPara 97 $"b"; FQuote [FPara 99 $"d"; FItem (MOrdered $"12" 41) 1 [FPara 101 []; fence]; FPara 103 []]; FPara 102 []] in
-  let t2 := FQuote [FQuote [FPara 97 []]; fence; FPara 98 []; t1] in
+  let t1 := FItem (MBullet 45) 2 [FPara 97 $"b" []; FQuote [FPara 99 $"d" []; FItem (MOrdered $"12" 41) 1 [FPara 101 [] []; fence]; FPara 103 [] []]; FPara 102 [] []] in
+  let t2 := FQuote [FQuote [FPara 97 [] []]; fence; FPara 98 [] []; t1] in
   wf_b t2 = true /\ rt_ok t2 = true.
 Proof. vm_compute. split; reflexivity. Qed.
 
